@@ -254,6 +254,10 @@ def check_case(case, ctx, model=None):
         module = deletion
         task = "_gene_deletion_worker" if entity == "gene" else "_reaction_deletion_worker"
         items = perm(universe)
+        if fn.startswith("essential") and abs(float(wt.value)) < 1e-9:
+            # default threshold = 1 % of a wild-type optimum of zero: membership is decided by the sign of round-off
+            # (-1e-17 < 0), the dead band of section 2.3 covers every item
+            return {"nontrivial": False, "classes": classes + ["essential-threshold-at-zero"], "undetermined": 1}
         if fn.startswith("essential"):
             f = fa.find_essential_genes if entity == "gene" else fa.find_essential_reactions
             ref = sorted(x.id for x in f(model, processes=1))
